@@ -14,6 +14,10 @@ type CSet = BTreeSet<char>;
 pub enum Opnd {
     Str(String),
     Range(char, char),
+    /// `"a"..MAX`: up to the last character of the base type's alphabet
+    ToMax(char),
+    /// `MIN.."f"`: from the first character of the base type's alphabet
+    FromMin(char),
     /// another constrained string type of the same kind, included by name (X.680 51.3 inside
     /// FROM): `Incl-IA5String ::= IA5String (FROM ("<2nd and 3rd probe character>"))`
     Incl(String),
@@ -102,6 +106,11 @@ fn universe(k: StrKind) -> CSet {
                     let p = probe(*k);
                     let lo = *p.iter().min().unwrap() as u32;
                     let hi = *p.iter().max().unwrap() as u32;
+                    // the small alphabets whole, with the characters around them (NUL .. U+00A0):
+                    // an annotation that reaches outside the base alphabet must show
+                    if base_alphabet(*k).is_some() {
+                        return (*k, (0u32..=0xa0).filter_map(char::from_u32).collect());
+                    }
                     (*k, (lo..=hi.min(lo + 0x2100)).filter_map(char::from_u32).collect())
                 })
                 .collect()
@@ -118,7 +127,20 @@ fn opnd_set(o: &Opnd, k: StrKind, raw: bool) -> CSet {
             .filter_map(char::from_u32)
             .filter(|c| raw || in_base(k, *c))
             .collect(),
+        Opnd::ToMax(a) => universe(k).into_iter().filter(|c| c >= a && (raw || in_base(k, *c))).filter(|c| raw_in_span(k, *c, raw)).collect(),
+        Opnd::FromMin(b) => universe(k).into_iter().filter(|c| c <= b && (raw || in_base(k, *c))).filter(|c| raw_in_span(k, *c, raw)).collect(),
         Opnd::Incl(_) => probe(k)[1..3].iter().copied().collect(),
+    }
+}
+
+/// code-point reading of MIN / MAX: between the first and the last character of the base alphabet
+fn raw_in_span(k: StrKind, c: char, raw: bool) -> bool {
+    if !raw {
+        return true;
+    }
+    match base_alphabet(k) {
+        Some(b) => b.iter().next().map_or(true, |lo| c >= *lo) && b.iter().next_back().map_or(true, |hi| c <= *hi),
+        None => in_base(k, c),
     }
 }
 
@@ -177,6 +199,8 @@ fn opnd_text(o: &Opnd) -> String {
     match o {
         Opnd::Str(s) => q(s),
         Opnd::Range(a, b) => format!("{}..{}", q(&a.to_string()), q(&b.to_string())),
+        Opnd::ToMax(a) => format!("{}..MAX", q(&a.to_string())),
+        Opnd::FromMin(b) => format!("MIN..{}", q(&b.to_string())),
         Opnd::Incl(n) => n.clone(),
     }
 }
@@ -289,10 +313,8 @@ fn expand_from(items: &[String]) -> Result<CSet, String> {
             if a > b {
                 return Err(format!("inverted range {it:?}"));
             }
-            if b - a > 0x3000 {
-                return Err(format!("range {it:?} too wide to expand"));
-            }
-            out.extend((a..=b).filter_map(char::from_u32));
+            // (sets are compared inside the universe of the case, which ends below U+3000)
+            out.extend((a..=b.min(0x3000)).filter_map(char::from_u32));
         } else {
             return Err(format!("unrecognised from item {it:?}"));
         }
@@ -353,7 +375,7 @@ fn judge(c: &Case, e: &Emitted) -> Option<(&'static str, String)> {
 }
 
 fn classify(c: &Case, e: &Emitted, clause: &str) -> Option<&'static str> {
-    let has_gap_range = |o: &Opnd| matches!(o, Opnd::Range(..)) && opnd_set(o, c.kind, true) != opnd_set(o, c.kind, false);
+    let has_gap_range = |o: &Opnd| matches!(o, Opnd::Range(..) | Opnd::ToMax(_) | Opnd::FromMin(_)) && opnd_set(o, c.kind, true) != opnd_set(o, c.kind, false);
     let any_gap = c.expr.all_except.iter().any(|o| has_gap_range(o))
         || c.expr.unions.iter().flatten().any(|ie| has_gap_range(&ie.a) || ie.except.as_ref().map_or(false, |x| has_gap_range(x)));
     match (&e.raw, c.form) {
@@ -364,10 +386,15 @@ fn classify(c: &Case, e: &Emitted, clause: &str) -> Option<&'static str> {
         // ... in a serial pair the constraint with the included type counts for nothing
         (Some(raw), Form::Serial) if clause == "exact" && has_incl(&c.expr) && *raw == probe(c.kind)[..3].iter().copied().collect::<CSet>() => Some("F-alpha-alias"),
         (Some(raw), form) => {
+            // (like the judgement itself, the models are compared inside the universe of the
+            // case: `"a"..MAX` reaches beyond it)
+            let uni = universe(c.kind);
+            let raw = &raw.intersection(&uni).copied().collect::<CSet>();
             let mut model = flatten_model(&c.expr, c.kind);
             if form == Form::Serial {
                 model.extend(probe(c.kind)[..3].iter().copied());
             }
+            let model: CSet = model.intersection(&uni).copied().collect();
             if *raw == model && (!pure_union(&c.expr) || form == Form::Serial) {
                 // F-alpha-flatten: every operand is unioned, whatever the operator
                 return Some("F-alpha-flatten");
@@ -439,6 +466,8 @@ fn operands(k: StrKind) -> Vec<Opnd> {
             v.push(Opnd::Range(sorted[i], sorted[j]));
         }
     }
+    v.push(Opnd::ToMax(sorted[sorted.len() / 2]));
+    v.push(Opnd::FromMin(sorted[sorted.len() / 2]));
     v
 }
 
